@@ -38,6 +38,17 @@ def evalAny (σ : Nat → Bool) : List G → Bool
   | g :: gs => eval σ g || evalAny σ gs
 end
 
+mutual
+/-- no `and` group is empty (the grammar cannot spell an empty group) -/
+def G.noEmptyAnd : G → Bool
+  | .atom _ => true
+  | .and gs => !gs.isEmpty && G.noEmptyAndAll gs
+  | .or gs => G.noEmptyAndAll gs
+def G.noEmptyAndAll : List G → Bool
+  | [] => true
+  | g :: gs => G.noEmptyAnd g && G.noEmptyAndAll gs
+end
+
 /-! ### mirror of `normalize_element_groups` / `flatten_or_group` -/
 
 /-- `group["elements"]` -/
